@@ -164,14 +164,25 @@ class _HexCount:
 
 
 LEVEL = {'C07': 'other'}
+
+
+def _sweep_c07(tier, seed):
+    from harness.sweeps import deck_sweep
+    return deck_sweep('C07', tier, seed, families=('hexlattice',), n_quick=48, n_thorough=600,
+                      kw={'remap': {'C06': 'C07'}})
+
+
+BOUNDED = {'C07': [_sweep_c07]}
 EXPLANATION = {'C07': (
     'Proved for all inputs on the real code: pointInPlaneIntersection (point in both planes, unit direction orthogonal '
     'to both normals), projectPointOnPlane, planeSide, latticeVector (C06). hexLatticeBaseVectors, hexVertices and '
     'hexSortSides (data-dependent walk over the adjacency of the six planes) are NOT proved: they are covered by a '
     'sampled stand-in on seeded regular and irregular centrally symmetric hexagons in random orientation, all '
     'admissible listing orders (third-listed plane adjacent or not), either normal orientation, with and without cap '
-    'planes. The top-level claim of C07 therefore rests on a sampled contract.')}
+    'planes. The top-level claim of C07 therefore rests on a sampled contract, plus a bounded deck sweep (family '
+    'hexlattice: LAT=2 prisms parallel to z, regular and irregular hexagons, FILL arrays over i and j, probe points '
+    'located by an independent oracle that tiles the base prism with a1 and a2).')}
 ASSUMPTIONS = {'C07': [
     'hexagonal convention (property text): a1 across the first-listed plane, a2 across the third-listed, a3 across the seventh',
-    'hexVertices / hexSortSides: sampled only; develop_lattice for LAT=2: not exercised at deck level',
+    'hexVertices / hexSortSides: sampled only; develop_lattice for LAT=2: exercised by the bounded hexlattice deck sweep (prisms parallel to z, 2-D index ranges)',
 ]}
